@@ -28,7 +28,12 @@ ENGINES = [
 
 NOTES = ("Static analysis only: every check re-extracts facts from /repo's current working tree (cached by content "
          "hash under .cache/), reports constructs (function, call site, table row) and never runs the parsers or the "
-         "test suite. Exit 2 means the checker itself is broken (tool build, positive control), never a verdict.")
+         "test suite. Verdicts: exit 0 = every rule that recognised its code found it conforming (KNOWN-FINDING and "
+         "UNDECIDED lines allowed: a rule that no longer recognises the shape of the code says so and decides nothing, "
+         "listed under coverage.undecided; VERIF_STRICT=1 makes that exit 2); exit 1 + VIOLATION line = recognised and "
+         "deviating; exit 2 = the checker itself is broken (tool build, tree does not compile), never a verdict. "
+         "bin/selftest replays 36 seeded regressions and own must-fire patches (must alarm) and 20 behaviour-preserving "
+         "refactorings (must stay silent) against scratch copies.")
 
 NOT_APPLICABLE = {}
 
@@ -128,7 +133,9 @@ CHECKS = {
                 "production (rhs, content-ness, right-nulled length): pop size, symbols drawn, binding pattern and p0..pk "
                 "order, argument order, None fillers only for the nulled tail; generated action functions must use every "
                 "content parameter exactly once and build vectors in input order. Complete per program (in-repo corpus + "
-                "witnesses); does not run any parser.",
+                "witnesses; thorough: + a matrix of every repository grammar x 10 configurations); the GLR replay clause is "
+                "decided on the runtime's MIR (post-order replay through the LR builder protocol, right-nulled extension of "
+                "the matched solution). Does not run any parser.",
         "note": "Trusted: hook dump, syn; hand-maintained actions files (force off) are out of scope.",
     },
     "C11": {
